@@ -200,6 +200,37 @@ pub fn run(tier: Tier, seed: u64) -> i32 {
             }
         }
     }
+    // structured multi-bit alterations of the reconnect proof (a folding / truncating / word-wise
+    // comparison accepts patterns that no single-bit change reveals)
+    let mut multi = 0u64;
+    for s in &ss {
+        let current = *s.server.reconnect_challenge_data();
+        let (honest, _, _) = with_script(&[0x31; 16], || s.client.calculate_reconnect_values(current));
+        let honest = match honest {
+            Ok(h) => h,
+            Err(_) => continue,
+        };
+        for alt in altered_proofs(&honest.proof, tier == Tier::Thorough) {
+            let mut srv = s.server.clone();
+            let (r, _, _) = with_script(&[0x32; 16], || srv.verify_reconnection_attempt(honest.challenge_data, alt));
+            multi += 1;
+            if r != Ok(false) {
+                report.violation(Violation {
+                    signature: "C05|accepted-wrong-proof".into(),
+                    scenario: "multi-bit-proof-alterations".into(),
+                    replay: json!({"session": s.name, "client_data": hex(&honest.challenge_data), "server_challenge": hex(&current), "presented": hex(&alt), "right_proof": hex(&honest.proof)}),
+                    detail: json!({"message": format!("verify_reconnection_attempt returned {r:?} for a proof that differs from the right one in {} bit(s)", alt.iter().zip(honest.proof.iter()).map(|(x, y)| (x ^ y).count_ones()).sum::<u32>())}),
+                });
+                break;
+            }
+        }
+        let mut srv = s.server.clone();
+        if with_script(&[0x32; 16], || srv.verify_reconnection_attempt(honest.challenge_data, honest.proof)).0 != Ok(true) {
+            report.violation(Violation { signature: "C05|rejected-right-proof".into(), scenario: "multi-bit-proof-alterations".into(), replay: json!({"session": s.name}), detail: json!({"message": "the honest reconnect proof is rejected"}) });
+        }
+    }
+    report.count("multi_bit_alteration_cases", multi);
+    total_exec += multi;
     report.count("executions", total_exec);
     report.require("histories_mixing_accept_and_reject");
     report.require("histories_all_accepted");
